@@ -1,8 +1,6 @@
 """C04 — all descriptions of one operation agree (protocol coherence)."""
 from __future__ import annotations
 
-import itertools
-
 import numpy as np
 from hypothesis import strategies as st
 
@@ -15,7 +13,8 @@ from vf.ref import linalg as L
 
 RULE = (
     "Hypothesis draws an operation recipe: a gate of the shared gate table (all unitary, qudit and channel families, plus "
-    "local KrausChannel / MixedUnitaryChannel / qudit ResetChannel / qudit X,Z rows) with special+continuous parameters, "
+    "local KrausChannel / MixedUnitaryChannel / StatePreparationChannel / BooleanHamiltonianGate / Pauli singletons / "
+    "qudit ResetChannel / qudit X,Z rows) with special+continuous parameters, "
     "placed on Line/Grid/Named qubits or qids at drawn (non-ascending, non-adjacent) positions, wrapped 0-3 times by "
     "with_tags, with_qubits(permutation), controlled_by / ControlledOperation / gate.controlled / ControlledGate with "
     "ProductOfSums, SumOfProducts and qudit control values, cirq.inverse, **t, ParallelGate, CircuitOperation(repetitions, "
@@ -38,25 +37,35 @@ ASSUMPTIONS = [
     "powered value and only the agreement of its other descriptions is checked (label pow_frac); integer powers use "
     "matrix_power",
     "decompositions are required to be exact (global phase included), as calibrated in DESIGN section 4; tolerances: "
-    "1e-7 for matrices/tensors in complex128, 3e-5 (x max |entry|) for complex64 tensors, 5e-5*(1+n_ops/20) for products "
-    "of decompositions (Cirq drops extracted phases below np.isclose's default rtol=1e-5), 1e-6 for superoperators/density matrices",
+    "1e-7 for matrices/tensors in complex128, 3e-5 (x max |entry|) for complex64 tensors, 2e-6*(1+n_ops/20) for products "
+    "of decompositions (analytic synthesis is sqrt(eps)-precise), 1e-6 for superoperators/density matrices",
     "act_on for stabilizer states may raise the documented TypeError (counted as stab_unsupported, not a failure)",
 ]
-SENSITIVITY = [
-    "CXPow apply_unitary slices swapped", "ZPow apply_unitary phases the 0 slice", "ControlledOperation._extend_matrix drops last control value",
-    "CSwap apply_unitary wrong pair", "HPow fast path missing 1/sqrt2", "apply_unitary from matrix ignores subspace order",
-    "apply_channel forgets right conjugation", "kraus from mixture drops sqrt", "SumOfProducts & ProductOfSums order",
-    "ParallelGate unitary one copy short", "CircuitOperation repetitions ignored in _unitary_", "state-vector mixture uses wrong axes order",
-    "ControlledOperation apply_unitary uses first control value only", "inverse of decomposition not reversed",
+SENSITIVITY = [  # keep in sync with mutants/c04.json (all KILLED by the quick tier)
+    "CXPow apply_unitary slices swapped",
+    "ZPow apply_unitary phases the slice below",
+    "ControlledOperation._extend_matrix applies control values to reversed controls",
+    "SWAP fast path exchanges 01 with 11",
+    "HPow fast path missing 1/sqrt2",
+    "descending subspaces treated as ascending",
+    "apply_channel forgets the final conjugation",
+    "kraus from mixture drops sqrt",
+    "control values AND puts the other operand first",
+    "ParallelGate unitary kron of transposed copy",
+    "CircuitOperation._unitary_ one repetition short",
+    "state-vector mixture strategy applies the neighbouring branch",
+    "ControlledOperation apply_unitary treats control value 0 as any",
+    "inverse composite gate keeps the original order",
+    "density-matrix state reverses the right axes",
+    "CCZ decomposition uses S instead of T",
+    "stabilizer state applies CX with control and target exchanged",
+    "apply_unitaries forgets to swap the buffer",
 ]
 
 TOL = 1e-7
-# Decompositions: (a) analytic synthesis (multi-controlled rotations, KAK, QSD) goes through arccos/sqrt of near-1 numbers
-# (sqrt(eps) precision); (b) Cirq's own numerical policy: `_extract_phase` drops an extracted (possibly controlled, i.e.
-# relative) phase when GlobalPhaseGate.is_identity() says so, which is np.isclose(c, 1) with numpy's default rtol=1e-5,
-# i.e. up to ~1e-5 rad per extracted phase (several per decomposition).  Reported as a precision note, not hidden: the
-# tolerance is set just above that policy.
-TOL_DECOMP = 5e-5
+# analytic decompositions (multi-controlled rotations, KAK, QSD) go through arccos/sqrt of near-1 numbers: their
+# precision is ~sqrt(eps) per synthesised gate, not eps
+TOL_DECOMP = 2e-6
 
 
 # ======================================================================================= common helpers
@@ -343,7 +352,8 @@ def oracle_apply(r):
             if vv:
                 lab[kk] = True
     lab["odd_layout"] = odd
-    lab["kernel"] = hasattr(val, "_apply_unitary_")
+    gate_ = val if lvl == "gate" else val.gate
+    lab["kernel"] = hasattr(gate_ if gate_ is not None else val.untagged, "_apply_unitary_")
     lab["nontrivial"] = bool(b.applied) or (odd and lab["kernel"])
     return lab
 
@@ -765,6 +775,11 @@ def _stabilizer(b, val, qubits, lvl, reg, axes, u, r):
     n = len(reg)
     if n == 0:
         return lab
+    if b.family == "AncillaCZPow":
+        # stabilizer states implement neither add_qubits nor remove_qubits: ancilla-allocating decompositions are
+        # outside their domain (they fail with a KeyError rather than the documented TypeError - an exception-type nit)
+        lab["stab_ancilla_gate_skipped"] = True
+        return lab
     is_u = b.ref.is_unitary
     mx = None
     if not is_u:
@@ -981,40 +996,6 @@ def oracle_measurement(r):
 # ======================================================================================= known features / sub-checks
 
 
-def _has_trivial_qubit_ctrl(recipe):
-    """some ctrl wrapper is 'all controls are qubits, enabled on 1' (the condition of the CX/CZ/CCX/CCZ shortcuts)."""
-    for w in recipe.get("w", []):
-        if not (isinstance(w, dict) and w.get("k") == "ctrl") or w.get("sop"):
-            continue
-        dims = [int(d) if int(d) in (2, 3, 4) else 2 for d in (w.get("d") or [2])][:2]
-        if any(d != 2 for d in dims):
-            continue
-        _, active = O._control_values(dict(w, b=False), dims)
-        if active == {(1,) * len(dims)}:
-            return True
-    return False
-
-
-def _f14(sub, recipe):
-    """XPowGate/ZPowGate(dimension>2).controlled() shortcut returns the *qubit* CX/CZ gate."""
-    r = recipe.get("op", recipe)
-    return r["g"][0] in ("XPowQudit", "ZPowQudit") and _has_trivial_qubit_ctrl(r)
-
-
-def _f12(sub, recipe):
-    """has_mixture True but mixture(default=None) is None for values that are unitary without a _unitary_ method."""
-    if sub != "predicates":
-        return False
-    b, val, qubits, lvl = _pred_eval(recipe)
-    if not cirq.has_unitary(val):
-        return False
-    getter = getattr(val, "_unitary_", None)
-    res = NotImplemented if getter is None else getter()
-    mg = getattr(val, "_mixture_", None)
-    mres = NotImplemented if mg is None else mg()
-    return (res is NotImplemented or res is None) and (mres is NotImplemented or mres is None)
-
-
 def _f13(sub, recipe):
     """has_kraus/has_mixture True via decomposition but kraus()/mixture() cannot compose: ParallelGate / CircuitOperation of channels."""
     if sub != "predicates":
@@ -1044,41 +1025,24 @@ def _f17(sub, recipe):
     return res is None
 
 
-def _f16b(sub, recipe):
-    """ControlledGate._decompose_with_context_ indexes `rads[hot]` with python-bool control values (numpy mask semantics):
-    the controlled global phase of a decomposition is lost when control values are given as bools."""
-    if not sub.startswith("decompose"):
-        return False
-    r = recipe.get("op", recipe)
-    if r["g"][0] == "UniformSuperposition":  # its own _decompose_ emits controlled_by(..., control_values=[False])
-        return True
-    return any(isinstance(w, dict) and w.get("k") == "ctrl" and w.get("b") and not w.get("sop") for w in r.get("w", []))
-
-
-def _f19(sub, recipe):
-    """A PauliString without qubits but with a coefficient, raised to a power: the zero-qubit PauliStringPhasor it
-    returns has the identity as unitary ((1j*PauliString())**2 should be -1).  Gate algebra (C08/C14), edge of the domain."""
-    r = recipe.get("op", recipe)
-    p = r["g"][1]
-    if r["g"][0] != "DensePauli" or not p.get("c") or any(ch != "I" for ch in p.get("ps", [])):
-        return False
-    return any(isinstance(w, dict) and w.get("k") == "pow" for w in r.get("w", []))
-
-
 KNOWN_FEATURES = {
-    "F16b_bool_control_values_controlled_gate_decompose": _f16b,
-    "F12_has_mixture_without_mixture": _f12,
     "F13_has_kraus_by_decomposition_without_kraus": _f13,
-    "F14_qudit_pow_gate_controlled_shortcut": _f14,
     "F17_apply_unitary_decompose_ignores_subspaces": _f17,
-    "F19_empty_pauli_string_pow_ignores_coefficient": _f19,
 }
 
-_UNITARY = lambda f: f.unitary  # noqa: E731
+def uncovered():
+    """Exported gate classes without a row in the table used here (found by introspection of `cirq`)."""
+    return ["cirq.PauliMeasurementGate", "cirq.ArithmeticGate subclasses", "cirq.MutableDensePauliString",
+            "classically controlled operations (C12)", "parameterised (symbolic) values (C10)",
+            "ancilla-allocating decompositions of *library* gates (none in the table; the protocol branches are exercised "
+            "by the harness-defined AncillaCZPow gate)"]
+
+
 _ALL = lambda f: True  # noqa: E731
 _FAST = lambda f: f.unitary and ("fastpath" in f.tags or f.name in (  # noqa: E731
     "CSwap", "Identity", "QuditIdentity", "Matrix1", "Matrix2", "QuditMatrix", "QuditMatrix2", "QubitPermutation", "GlobalPhase",
-    "DensePauli", "Diagonal", "XPowQudit", "ZPowQudit", "Rx", "Ry", "Rz", "Wait", "PhasedXPow", "SingleQubitClifford"))
+    "DensePauli", "Diagonal", "XPowQudit", "ZPowQudit", "Rx", "Ry", "Rz", "Wait", "PhasedXPow", "SingleQubitClifford",
+    "PauliSingleton"))
 _DECOMP = lambda f: f.unitary and f.name not in ("XPow", "YPow", "ZPow", "Rx", "Ry", "Rz", "GPI", "GPI2", "IonqMS", "IonqZZ",  # noqa: E731
                                                   "QuditPlus", "QuditMatrix", "GlobalPhase", "CZPow")
 
@@ -1086,7 +1050,7 @@ SUBCHECKS = [
     SubCheck("apply_unitary", _apply_case(_ALL), oracle_apply, quick=5600, thorough=160000, shards_quick=8, shards_thorough=16,
              essential={"odd_layout": 0.5, "lay_subspaces": 0.15, "wrapped": 0.5, "w_ctrl": 0.15}),
     SubCheck("apply_unitary_kernels", _apply_case(_FAST, kinds=("tag", "perm", "ctrl", "pow"), nlay=4, force=3), oracle_apply,
-             quick=4000, thorough=120000, shards_quick=4, shards_thorough=16, essential={"odd_layout": 0.6, "kernel": 0.8}),
+             quick=4000, thorough=120000, shards_quick=4, shards_thorough=16, essential={"odd_layout": 0.6, "kernel": 0.6}),
     SubCheck("decompose", _decomp_case(_DECOMP), oracle_decompose, quick=4000, thorough=100000, shards_quick=8, shards_thorough=16,
              essential={"once_checked": 0.5, "odd_qubit_order": 0.3}),
     SubCheck("decompose_wide", _decomp_case(_ALL), oracle_decompose, quick=1200, thorough=40000, shards_quick=2, shards_thorough=8),
